@@ -24,7 +24,8 @@ def grid(draw, unit, lo, hi):
 def sched_specs(draw, quiet=True, adaptive=False, force_last=False,
                 empty_ok=False, all_quiet_ok=False, precisions=(None,),
                 max_procs=4, steps_ok=True, state_cond=False, twin_ok=False,
-                deep=False, emit_steps=(1,), heavy_one_in=5):
+                deep=False, emit_steps=(1,), heavy_one_in=5, decimal_ok=False,
+                big_t0_ok=False):
     # deep (thorough tier): a third of the cases may have up to two more
     # processes and up to 8 calls
     big = bool(deep) and draw(st.integers(0, 2)) == 0
@@ -33,6 +34,11 @@ def sched_specs(draw, quiet=True, adaptive=False, force_last=False,
     precision = draw(st.sampled_from(list(precisions)))
     if precision is None:
         unit = 0.25
+        if decimal_ok and draw(st.integers(0, 3)) == 0:
+            # decimal times without a precision: sums of floats
+            # (0.1 + 0.1 + 0.1 != 0.3), compared with the same float sums
+            unit = 0.1
+
         def tval(k):
             return k * unit
         ks = st.integers(1, 16)
@@ -98,6 +104,11 @@ def sched_specs(draw, quiet=True, adaptive=False, force_last=False,
     if force_last:
         calls[-1]['force'] = True
     t0 = draw(st.sampled_from([0, 0, 0, tval(draw(st.integers(1, 8)))]))
+    if big_t0_ok and precision is None and unit == 0.25 and \
+            draw(st.integers(0, 7)) == 0:
+        # a large absolute clock (e.g. a unix time stamp): quarter steps are
+        # still exact, but anything relative to the clock value is not small
+        t0 = draw(st.sampled_from([2 ** 30, 1600000000]))
     nsteps = draw(st.integers(0, 2)) if steps_ok else 0
     emit_step = draw(st.sampled_from(list(emit_steps))) \
         if len(emit_steps) > 1 else emit_steps[0]
